@@ -164,6 +164,91 @@ def random_history(rng, uni, length):
     return hist
 
 
+def build_order_cases(rng, count, next_id):
+    """ small universes where every gene is added only after the regions exist (or all before any area); every step from
+        region creation on is validated (C08: membership whatever the build order) """
+    cases = []
+    for _ in range(count):
+        length = rng.choice([12, 16, 20, 30])
+        circ = rng.random() < 0.8
+
+        def arc(max_size, length=length, circ=circ):
+            size = rng.randrange(1, max_size)
+            start = rng.randrange(0, length)
+            if start + size <= length:
+                return {"parts": [[start, start + size]], "strand": 1}
+            if circ:
+                return {"parts": [[start, length], [0, start + size - length]], "strand": 1}
+            return {"parts": [[length - size, length]], "strand": 1}
+
+        areas = []
+        for _ in range(rng.randrange(2, 5)):
+            ext = arc(max(3, length // 3))
+            if rng.random() < 0.5:
+                areas.append({"kind": "sub", "core": ext, "extent": ext, "product": "sub"})
+            else:
+                areas.append({"kind": "proto", "core": ext, "extent": ext, "product": rng.choice("abc")})
+        genes = []
+        for _ in range(rng.randrange(2, 6)):
+            loc = arc(4)
+            loc["strand"] = rng.choice([1, -1])
+            if loc["strand"] == -1:
+                loc["parts"] = loc["parts"][::-1]
+            if all(g["loc"] != loc for g in genes):
+                genes.append({"loc": loc, "core_for": sorted(rng.sample("abc", rng.randrange(0, 3)))})
+        uni = {"L": length, "circ": circ, "genes": genes, "areas": areas}
+        build = [{"op": "AddSub" if a["kind"] == "sub" else "AddProto", "arg": i + 1} for i, a in enumerate(areas)]
+        rng.shuffle(build)
+        if any(a["kind"] == "proto" for a in areas):
+            build.append({"op": "CreateCandidates", "arg": 0})
+        build.append({"op": "CreateRegions", "arg": 0})
+        add_genes = [{"op": "AddGene", "arg": i + 1} for i in range(len(genes))]
+        rng.shuffle(add_genes)
+        pick = rng.random()
+        if pick < 0.6:
+            hist, log_from = build + add_genes, len(build) - 1
+        elif pick < 0.8:
+            hist, log_from = add_genes + build, len(add_genes) + len(build) - 1
+        else:   # interleaved: areas and genes in random order, regions created last
+            mixed = build[:-1 - (1 if build[-2]["op"] == "CreateCandidates" else 0)] + add_genes
+            rng.shuffle(mixed)
+            tail = build[len(build) - (2 if build[-2]["op"] == "CreateCandidates" else 1):]
+            hist, log_from = mixed + tail, 0
+        cases.append({"id": next_id, "uni": uni, "hist": hist, "log_from": log_from, "sampled": True})
+        next_id += len(hist)
+    return cases, next_id
+
+
+def validate_cases(ctx, cases, samples=None, sample_ids=(), only_clauses=None):
+    """ replays the histories, ships every logged step to RecordSM_Trace; returns the number of validated calls """
+    from ..common import CPUS, chunks, pmap  # pylint: disable=import-outside-toplevel
+    calls = 0
+    for start in range(0, len(cases), 20000):
+        part = cases[start:start + 20000]
+        nested = [evs for sub in pmap(observe_many, chunks(part, CPUS * 4)) for evs in sub]
+        events, by_id = [], {}
+        for case, evs in zip(part, nested):
+            for event in evs:
+                upto = case["log_from"] + (event["id"] - case["id"]) + 1
+                hist = case["hist"][:upto]
+                by_id[event["id"]] = {"op": event["call"]["op"], "input": {"uni": case["uni"], "hist": hist},
+                                      "call": f"harness.recordsm.run_history(uni, hist)[-1] with uni={case['uni']} hist={hist}",
+                                      "observed": {"exc": event["exc"], "after": event["after"]},
+                                      "features": features(case["uni"], hist), "sampled": case["sampled"]}
+                if event["after"]["regions"]:
+                    ctx.nontrivial_case(event["id"])
+                events.append(event)
+                calls += 1
+            if samples is not None and evs and (case["id"] in sample_ids or (case["sampled"] and len(samples) < 3)):
+                samples[case["id"]] = {"universe": case["uni"], "history": case["hist"], "record_after": evs[-1]["after"]}
+        before = len(ctx.failures)
+        ctx.validate("RecordSM_Trace", events, by_id, min_per_shard=150)
+        if only_clauses is not None:
+            ctx.failures[before:] = [f for f in ctx.failures[before:] if any(f["clause"].startswith(c) for c in only_clauses)]
+        del events, by_id, nested
+    return calls
+
+
 def run(ctx):
     rng = random.Random(ctx.seed)
     depth = 4 if ctx.quick else 6
@@ -215,35 +300,11 @@ def run(ctx):
         next_id += 1
         layouts += 1
     ctx.notes["region_layouts"] = layouts
+    late_cases, next_id = build_order_cases(rng, 1500 if ctx.quick else 40000, next_id)
+    cases += late_cases
+    ctx.notes["build_order_histories"] = len(late_cases)
     samples = {}
-
-    def flatten(cases_part):
-        from ..common import CPUS, chunks, pmap  # pylint: disable=import-outside-toplevel
-        nested = [evs for sub in pmap(observe_many, chunks(cases_part, CPUS * 4)) for evs in sub]
-        return nested
-
-    calls = 0
-    for start in range(0, len(cases), 20000):
-        part = cases[start:start + 20000]
-        nested = flatten(part)
-        events, by_id = [], {}
-        for case, evs in zip(part, nested):
-            for event in evs:
-                upto = case["log_from"] + (event["id"] - case["id"]) + 1
-                hist = case["hist"][:upto]
-                by_id[event["id"]] = {"op": event["call"]["op"], "input": {"uni": case["uni"], "hist": hist},
-                                      "call": f"harness.recordsm.run_history(uni, hist)[-1] with uni={case['uni']} hist={hist}",
-                                      "observed": {"exc": event["exc"], "after": event["after"]},
-                                      "features": features(case["uni"], hist), "sampled": case["sampled"]}
-                if event["after"]["regions"]:
-                    ctx.nontrivial_case(event["id"])
-                events.append(event)
-                calls += 1
-            if case["id"] in (0, enumerated - 1) or (case["sampled"] and len(samples) < 3):
-                if evs:
-                    samples[case["id"]] = {"universe": case["uni"], "history": case["hist"], "record_after": evs[-1]["after"]}
-        ctx.validate("RecordSM_Trace", events, by_id, min_per_shard=150)
-        del events, by_id, nested
+    calls = validate_cases(ctx, cases, samples, sample_ids=(0, enumerated - 1))
     ctx.evaluations = calls
     for ident in sorted(samples):
         ctx.sample(samples[ident], limit=4)
